@@ -313,7 +313,7 @@ def run_track(case, ctx) -> None:
                 # consists of rounding noise only, and noise differs by 100% of itself
                 gmax_all = max([float(x_.abs().max()) for x_ in go if x_ is not None and x_.numel()] + [1e-30])
                 rel = float((a - b).abs().max()) / max(float(b.abs().max()), gmax_all)
-                if rel <= 1e-6:
+                if rel <= 1e-5:  # (float32 programs: a few dozen ulp of the run's largest gradient)
                     # rounding-level difference: attribute it to the accumulation order of >= 3 gradient contributions, if the
                     # program has such a tensor (float addition is not associative); anything else keeps its own key
                     why = "rounding-level:accumulation-order-at-a-tensor-with-3-or-more-consumers" if _max_fanout(prog) >= 3 else "rounding-level:unexplained"
